@@ -9,9 +9,9 @@
    reader hands exactly the answer headers to the chase), NameRefEq (NameRef::eq is equality of the
    decoded names), Chase (what the chase returns), RDataRT (the typed decode is the value). *)
 From Coq Require Import ZArith.
-From RsdnsModel Require Import Base GenConst GenCursor GenHeader GenTypes GenTracker GenReader GenSpec Cursor Names Labels Header Tracker RData Reader RecordSet.
+From RsdnsModel Require Import Base GenConst GenCursor GenHeader GenTypes GenTracker GenReader GenSpec Cursor Names Labels Header Tracker RData Reader RecordSet Writer.
 From RsdnsModel.Spec Require Import WireName LinearPass RDataWire.
-From RsdnsModel.Proofs Require Import CursorSafe ListN LabelsSound LabelsComplete SpecExec ParseSpec RecordRT RDataRT NameRefEq TrackerRefine ReaderTotal ReaderRefine Chase FromMsgRefine MessageRT.
+From RsdnsModel.Proofs Require Import CursorSafe ListN LabelsSound LabelsComplete SpecExec ParseSpec WriterLayout RoundTrip RecordRT RDataRT NameRefEq TrackerRefine ReaderTotal ReaderRefine Chase FromMsgRefine MessageRT.
 From Coq Require Import ZifyBool ZifyN ZifyNat.
 Open Scope N_scope.
 
@@ -201,6 +201,235 @@ Section E.
                (cok_here msg ty (sq_class q) r4 _ _) F1 _ _ F2 (S (length hs)) ltac:(lia)).
     cbn [bind]. destruct qname_decodes as [c2 E2]. rewrite E2. cbn [bind]. rewrite F3. reflexivity.
   Qed.
+
+  (* ================================================================ the CNAME chain, semantically *)
+  (* a positioned record: start offset, record, end offset, index; None once consumed by the chase *)
+  Definition prec : Type := (N * srecord * N * N)%type.
+  Definition phdr (o : option prec) : hdr := match o with Some (p, x, e, k) => sem_hdr p x e k | None => None end.
+  Definition pstands (o : option prec) : Prop := match o with Some (p, x, e, _) => record_stands msg p x e | None => True end.
+  (* owner equals the current name t (case-insensitively), type as wanted, class of the question *)
+  Definition smatch (want : N) (t : list byte) (o : option prec) : bool :=
+    match o with
+    | Some (_, x, _, _) => name_eq (text_of_labels (sr_labels x)) t && ((sr_type x =? want) && (sr_class x =? sq_class q))
+    | None => false
+    end.
+  Definition pval (o : option prec) : rdata := match o with Some (_, x, _, _) => rdata_val (sr_data x) | None => RD_A 0 end.
+  Definition pttl (o : option prec) : N := match o with Some (_, x, _, _) => sr_ttl x | None => 0 end.
+  Fixpoint precs (n : nat) (p : N) (l : list srecord) (ends : list N) (k : N) : list (option prec) :=
+    match n, l, ends with
+    | S m, x :: l', e :: ends' => Some (p, x, e, k) :: precs m e l' ends' (k + 1)
+    | _, _, _ => []
+    end.
+  Lemma precs_hdrs : forall n p l ends k, map phdr (precs n p l ends k) = sem_hdrs n p l ends k.
+  Proof. induction n as [|n IH]; intros p l ends k; [reflexivity|]. destruct l, ends; try reflexivity. cbn [precs sem_hdrs map phdr]. f_equal. apply IH. Qed.
+  Lemma precs_stand : forall n p l ends k, rstands msg p l ends -> Forall pstands (precs n p l ends k).
+  Proof.
+    induction n as [|n IH]; intros p l ends k Hs; [constructor|]. destruct l as [|x l]; destruct ends as [|e ends]; cbn [rstands] in Hs; try contradiction; [constructor|].
+    destruct Hs as [Hx Hrest]. cbn [precs]. constructor; [exact Hx|apply IH; exact Hrest].
+  Qed.
+
+  (* the name at offset pn decodes to the text t *)
+  Definition decodes (pn : N) (t : list byte) : Prop := exists c', read_name msg Heap (c_with_pos msg pn) = Ok (t, c').
+
+  (* the chain over the semantic records: at a name with no record of the requested type follow the
+     FIRST live CNAME record for it, consume it, continue at its target *)
+  Inductive schain : N -> list byte -> list (option prec) -> N -> list byte -> list (option prec) -> Prop :=
+  | sc_here pn t os : schain pn t os pn t os
+  | sc_hop pn t (pre : list (option prec)) p x e k (post : list (option prec)) ls pn' t' os' :
+      filter (smatch ty t) (pre ++ Some (p, x, e, k) :: post) = [] ->
+      Forall (fun o => smatch T_CNAME t o = false) pre ->
+      smatch T_CNAME t (Some (p, x, e, k)) = true ->
+      sr_data x = A_Name T_CNAME ls ->
+      schain (e - lenN (rdata_enc (sr_data x))) (join_labels ls) (pre ++ None :: post) pn' t' os' ->
+      schain pn t (pre ++ Some (p, x, e, k) :: post) pn' t' os'.
+
+  Section WithReader2.
+    Variable r4 : reader.
+    Hypothesis Hw4 : whole msg (r_cur r4).
+    Notation IM := (is_match msg (sq_class q)).
+
+    Lemma is_match_at pn t want o : decodes pn t -> pstands o ->
+      IM want (c_with_pos msg pn) (phdr o) = smatch want t o.
+    Proof.
+      intros [c2 E2] Hs. destruct o as [[[[p x] e] k]|]; [|reflexivity]. cbn [phdr pstands smatch] in *.
+      destruct Hs as (r & pre & post & Hn & _). unfold sem_hdr, is_match. cbn [m_rtype m_rclass].
+      destruct (stands_decodes _ _ _ Hn) as [c1 E1].
+      assert (Hw1 : whole msg (c_with_pos msg p)) by (split; reflexivity).
+      assert (Hw2 : whole msg (c_with_pos msg pn)) by (split; reflexivity).
+      rewrite (nameref_eq_is_decoded_eq msg Heap _ _ _ _ _ _ (whole_cwf msg _ Hw1) (whole_cwf msg _ Hw2)
+                 ltac:(rewrite (whole_vis msg _ Hw1), (whole_vis msg _ Hw2); reflexivity) E1 E2).
+      destruct (name_eq _ _); reflexivity.
+    Qed.
+
+    Lemma cmp_ok_at pn t os : decodes pn t -> Forall pstands os -> cmp_ok msg (c_with_pos msg pn) (map phdr os).
+    Proof.
+      intros [c2 E2] Hs. induction Hs as [|o os Ho _ IH]; [constructor|]. cbn [map]. constructor; [|exact IH].
+      destruct o as [[[[p x] e] k]|]; [|exact I]. cbn [phdr pstands] in *. unfold sem_hdr.
+      destruct Ho as (r & pre & post & Hn & _). destruct (stands_decodes _ _ _ Hn) as [c1 E1].
+      assert (Hw1 : whole msg (c_with_pos msg p)) by (split; reflexivity).
+      assert (Hw2 : whole msg (c_with_pos msg pn)) by (split; reflexivity).
+      eexists. apply (nameref_eq_is_decoded_eq msg Heap _ _ _ _ _ _ (whole_cwf msg _ Hw1) (whole_cwf msg _ Hw2)
+                 ltac:(rewrite (whole_vis msg _ Hw1), (whole_vis msg _ Hw2); reflexivity) E1 E2).
+    Qed.
+
+    Lemma filter_at pn t want os : decodes pn t -> Forall pstands os ->
+      filter (IM want (c_with_pos msg pn)) (map phdr os) = map phdr (filter (smatch want t) os).
+    Proof.
+      intros Hd Hs. induction Hs as [|o os Ho _ IH]; [reflexivity|]. cbn [map filter].
+      rewrite (is_match_at pn t want o Hd Ho). destruct (smatch want t o); cbn [map]; rewrite IH; reflexivity.
+    Qed.
+
+    Lemma data_at t os : Forall pstands os ->
+      Forall2 (data_of msg ty r4) (map phdr (filter (smatch ty t) os)) (map pval (filter (smatch ty t) os)) /\
+      map hdr_ttl (map phdr (filter (smatch ty t) os)) = map pttl (filter (smatch ty t) os).
+    Proof.
+      intro Hs. induction Hs as [|o os Ho _ [IH1 IH2]]; [split; [constructor|reflexivity]|]. cbn [filter].
+      destruct (smatch ty t o) eqn:Em; [|split; assumption]. cbn [map]. destruct o as [[[[p x] e] k]|]; [|discriminate].
+      cbn [phdr pval pttl pstands smatch] in *. split; [constructor; [|exact IH1]|cbn [hdr_ttl sem_hdr m_ttl]; f_equal; exact IH2].
+      apply (data_of_sem r4 Hw4); [exact Ho|lia].
+    Qed.
+
+    (* the target of a standing CNAME record: the name at its data offset decodes to the text of its
+       value, and that is where the chase continues *)
+    Lemma cname_target p x e k : record_stands msg p x e -> sr_type x = T_CNAME ->
+      exists ls, sr_data x = A_Name T_CNAME ls /\ decodes (e - lenN (rdata_enc (sr_data x))) (join_labels ls) /\
+        forall c mk, sem_hdr p x e k = Some (c, mk) ->
+          c_clone_with_pos (r_cur r4) (rdata_pos mk) = c_with_pos msg (e - lenN (rdata_enc (sr_data x))).
+    Proof.
+      intros (r & pre & post & Hn & Hm & Hpre & Hty & Ha & Bt & Bc & Bl & Bd & ->) Ht. rewrite Ht in Hty.
+      unfold rdata_type_ok in Hty. destruct (sr_data x) as [a|a|t ls|cpu os|a pr bm|rm em|pf ex|b|mn rn s rf rt ex mi|ss] eqn:Ed;
+        unfold T_CNAME, T_A, T_AAAA, T_HINFO, T_WKS, T_MINFO, T_MX, T_NULL, T_SOA, T_TXT in Hty; try (exfalso; lia).
+      assert (t = T_CNAME) by (unfold T_CNAME; lia). subst t. exists ls. split; [reflexivity|].
+      cbn [rdata_enc ardata_ok] in *. rewrite name_enc_is_wire in *. destruct (name_ok_split _ Ha) as [Hok Hw].
+      replace (r + 10 + lenN (wire_encode ls) - lenN (wire_encode ls)) with (r + 10) by lia.
+      assert (Hm3 : msg = (pre ++ fixed_wire (sr_type x) (sr_class x) (sr_ttl x) (lenN (wire_encode ls))) ++ wire_encode ls ++ post)
+        by (rewrite <- app_assoc; exact Hm).
+      assert (Hlen' : lenN msg = r + 10 + lenN (wire_encode ls) + lenN post).
+      { rewrite Hm3 at 1. rewrite !lenN_app, lenN_fixed_wire. lia. }
+      split.
+      - eexists. apply (read_name_plain msg Heap _ ls post (c_with_pos msg (r + 10)) Hm3).
+        + unfold cwf, c_with_pos. cbn. split; [lia|exact I].
+        + cbn [pos c_with_pos]. rewrite lenN_app, lenN_fixed_wire. lia.
+        + cbn [lim c_with_pos]. rewrite lenN_app, lenN_fixed_wire, <- lenN_wire_encode. lia.
+        + exact Hok.
+        + exact Hw.
+      - intros c mk Hsh. unfold sem_hdr in Hsh. inversion Hsh; subst. destruct Hw4 as [Hl Ho].
+        unfold c_clone_with_pos, rdata_pos, c_with_pos. rewrite Ho, Hl. cbn [m_type_off]. unfold TYPE_TO_RDATA_OFFSET. f_equal.
+        rewrite Ed. cbn [rdata_enc]. change (name_enc ls) with (wire_encode ls). lia.
+    Qed.
+
+    (* the semantic chain is the chain the chase follows *)
+    Lemma schain_ok pn t os pn' t' os' : schain pn t os pn' t' os' -> decodes pn t -> Forall pstands os ->
+      chain_ok msg ty (sq_class q) r4 (c_with_pos msg pn) (map phdr os) (c_with_pos msg pn') (map phdr os') /\
+      decodes pn' t' /\ Forall pstands os'.
+    Proof.
+      induction 1 as [pn t os|pn t pre p x e k post ls pn' t' os' Hf Hpre Hm Hdat Hch IH]; intros Hd Hs.
+      - split; [constructor|split; assumption].
+      - assert (Hs1 : Forall pstands pre /\ pstands (Some (p, x, e, k)) /\ Forall pstands post).
+        { apply Forall_app in Hs. destruct Hs as [A B]. inversion B; subst. tauto. }
+        destruct Hs1 as (Sp & Sx & Spo).
+        assert (Htcn : sr_type x = T_CNAME) by (cbn [smatch] in Hm; lia).
+        destruct (cname_target p x e k Sx Htcn) as (ls' & Ed & Hdec & Hclone).
+        assert (ls' = ls) by congruence. subst ls'.
+        assert (Hs' : Forall pstands (pre ++ None :: post)) by (apply Forall_app; split; [exact Sp|constructor; [exact I|exact Spo]]).
+        destruct (IH Hdec Hs') as (C1 & C2 & C3). split; [|split; assumption].
+        rewrite map_app. cbn [map phdr].
+        set (c0 := c_with_pos msg p).
+        set (mk0 := mkMarker p (e - 10 - lenN (rdata_enc (sr_data x))) (sr_type x) (sr_class x) (sr_ttl x) (lenN (rdata_enc (sr_data x))) (section_of (lin 1 an ns ar) k)).
+        change (sem_hdr p x e k) with (Some (c0, mk0)).
+        apply cok_hop.
+        + pose proof (cmp_ok_at pn t _ Hd Hs) as Hc. rewrite map_app in Hc. cbn [map phdr] in Hc. exact Hc.
+        + pose proof (filter_at pn t ty _ Hd Hs) as Hfl. rewrite map_app in Hfl. cbn [map phdr] in Hfl.
+          rewrite Hf in Hfl. exact Hfl.
+        + apply Forall_forall. intros hh Hin. apply in_map_iff in Hin. destruct Hin as (o & <- & Hin).
+          rewrite (is_match_at pn t T_CNAME o Hd); [rewrite Forall_forall in Hpre; apply Hpre; exact Hin|].
+          rewrite Forall_forall in Sp. apply Sp; exact Hin.
+        + pose proof (is_match_at pn t T_CNAME (Some (p, x, e, k)) Hd Sx) as Him. cbn [phdr] in Him.
+          rewrite Hm in Him. exact Him.
+        + rewrite (Hclone c0 mk0 eq_refl). rewrite map_app in C1. cbn [map phdr] in C1. exact C1.
+    Qed.
+  End WithReader2.
+
+  (* the end offsets of standing records are determined by the message *)
+  Lemma rstands_unique : forall l p ends ends', rstands msg p l ends -> rstands msg p l ends' -> ends = ends'.
+  Proof.
+    induction l as [|x l IH]; intros p ends ends' H1 H2; destruct ends as [|e ends]; destruct ends' as [|e' ends']; cbn [rstands] in *; try contradiction; [reflexivity|].
+    destruct H1 as [S1 T1]. destruct H2 as [S2 T2].
+    destruct S1 as (r & pre1 & post1 & Hn1 & _ & _ & _ & _ & _ & _ & _ & _ & E1).
+    destruct S2 as (r' & pre2 & post2 & Hn2 & _ & _ & _ & _ & _ & _ & _ & _ & E2).
+    destruct Hn1 as (_ & R1 & _). destruct Hn2 as (_ & R2 & _).
+    pose proof (resume_at_det msg _ _ R1 _ R2) as Hrr. subst r'. subst e e'.
+    f_equal. eapply IH; eassumption.
+  Qed.
+
+  (* ---- from_msg follows the semantic chain ---- *)
+  Lemma from_msg_is_sem_chase rends : rstands msg e1 rs rends -> flag_rcode (h_flags h) = 0 ->
+    exists r4, whole msg (r_cur r4) /\
+      from_msg msg ty =
+      let os0 := precs (N.to_nat an) e1 rs rends 0 in
+      let* (name, ttl, data) := chase msg (S (length (map phdr os0))) ty r4 (c_with_pos msg 12) (sq_class q) (map phdr os0) in
+      let* (t, _) := read_name msg Heap name in
+      Ok (mkRRset t (sq_class q) ttl data).
+  Proof.
+    intros Sr0 Hrc0.
+    destruct (message_parsed msg 1 an ns ar [q] rs e1 e2 Hlen H12 Hq Hr eq_refl Hcnt ltac:(lia) Ban Bns Bar)
+      as (qends & rends' & Hp & L1 & L2 & Sq & Sr).
+    assert (rends' = rends) by (eapply rstands_unique; eassumption). subst rends'.
+    destruct qends as [|qe qends]; [cbn in L1; discriminate|].
+    destruct (from_msg_spec msg 1 an ns ar _ _ e1 e2 Hp L1 L2 h Hrh Hh ty (qitem 12 q qe) eq_refl eq_refl Hqr Htc) as (r4 & Hw4 & E).
+    assert (Hrc : the_rcode an ns ar (ritems e1 rs rends) h = 0).
+    { unfold the_rcode, the_opt. destruct (stands_skip (N.to_nat an) e1 rs rends Sr) as (p' & S' & G').
+      rewrite (no_opt_stands (N.to_nat (ns + ar)) p' _ _ an S' ltac:(intros; reflexivity) (ritems e1 rs rends)); [exact Hrc0|].
+      intro j. rewrite <- G'. f_equal. lia. }
+    exists r4. split; [exact Hw4|]. rewrite E. rewrite Hrc. cbn [N.eqb negb]. cbv zeta. cbn [a_class qitem].
+    assert (Hlr : length rends = length rs).
+    { clear - Sr. revert Sr. generalize e1. generalize rends. induction rs as [|y l IH]; intros ends0 p; destruct ends0 as [|e ends]; cbn [rstands]; try tauto.
+      intros [_ H]. cbn. f_equal. eapply IH. exact H. }
+    assert (Hal : answer_headers msg 1 an ns ar (qitems 12 [q] (qe :: qends)) (ritems e1 rs rends) e2 = sem_hdrs (N.to_nat an) e1 rs rends 0).
+    { unfold answer_headers. apply hdrs_align; [exact L1|intro j; reflexivity| |exact Hlr]. unfold lenN in Hcnt. lia. }
+    rewrite Hal, <- precs_hdrs. reflexivity.
+  Qed.
+
+  (* records of the requested type stand at the end of the chain: exactly they are returned, under
+     the name the chain ends at *)
+  Theorem from_msg_follows_chain rends pn t os' x xs :
+    rstands msg e1 rs rends ->
+    schain 12 qtext (precs (N.to_nat an) e1 rs rends 0) pn t os' ->
+    filter (smatch ty t) os' = x :: xs -> flag_rcode (h_flags h) = 0 ->
+    from_msg msg ty = Ok (mkRRset t (sq_class q) (fold_left N.min (map pttl (x :: xs)) 4294967295) (map pval (x :: xs))).
+  Proof.
+    intros Sr Hch Hhits Hrc0. destruct (from_msg_is_sem_chase rends Sr Hrc0) as (r4 & Hw4 & E). rewrite E. cbv zeta.
+    set (os0 := precs (N.to_nat an) e1 rs rends 0) in *.
+    assert (Hs0 : Forall pstands os0) by (apply precs_stand; exact Sr).
+    destruct (schain_ok r4 Hw4 _ _ _ _ _ _ Hch qname_decodes Hs0) as (Hck & Hdec & Hs').
+    pose proof (filter_at pn t ty os' Hdec Hs') as Hfl.
+    destruct (data_at r4 Hw4 t os' Hs') as [Hd1 Hd2]. rewrite Hhits in Hd1, Hd2, Hfl.
+    pose proof (live_le_length (map phdr os0)) as Hlive.
+    rewrite (chase_returns_matches msg ty (sq_class q) r4 (c_with_pos msg 12) (map phdr os0) (c_with_pos msg pn) (map phdr os')
+               Hck (cmp_ok_at pn t os' Hdec Hs') (pval x) (map pval xs) ltac:(rewrite Hfl; exact Hd1) (S (length (map phdr os0))) ltac:(lia)).
+    cbn [bind]. destruct Hdec as [c2 E2]. rewrite E2. cbn [bind]. rewrite Hfl, Hd2. reflexivity.
+  Qed.
+
+  (* nothing qualifies at the end of the chain — no record of the requested type and no further CNAME
+     for the name (this is also where every CNAME loop ends): NoAnswer *)
+  Theorem from_msg_chain_noanswer rends pn t os' :
+    rstands msg e1 rs rends ->
+    schain 12 qtext (precs (N.to_nat an) e1 rs rends 0) pn t os' ->
+    filter (smatch ty t) os' = [] -> Forall (fun o => smatch T_CNAME t o = false) os' -> flag_rcode (h_flags h) = 0 ->
+    from_msg msg ty = Err NoAnswer.
+  Proof.
+    intros Sr Hch Hnone Hnoc Hrc0. destruct (from_msg_is_sem_chase rends Sr Hrc0) as (r4 & Hw4 & E). rewrite E. cbv zeta.
+    set (os0 := precs (N.to_nat an) e1 rs rends 0) in *.
+    assert (Hs0 : Forall pstands os0) by (apply precs_stand; exact Sr).
+    destruct (schain_ok r4 Hw4 _ _ _ _ _ _ Hch qname_decodes Hs0) as (Hck & Hdec & Hs').
+    pose proof (filter_at pn t ty os' Hdec Hs') as Hfl. rewrite Hnone in Hfl.
+    pose proof (live_le_length (map phdr os0)) as Hlive.
+    rewrite (chase_reports_noanswer msg ty (sq_class q) r4 (c_with_pos msg 12) (map phdr os0) (c_with_pos msg pn) (map phdr os')
+               Hck (cmp_ok_at pn t os' Hdec Hs') Hfl); [reflexivity| |lia].
+    apply Forall_forall. intros hh Hin. apply in_map_iff in Hin. destruct Hin as (o & <- & Hin).
+    rewrite (is_match_at pn t T_CNAME o Hdec); [rewrite Forall_forall in Hnoc; apply Hnoc; exact Hin|].
+    rewrite Forall_forall in Hs'. apply Hs'; exact Hin.
+  Qed.
 End E.
 
 (* non-vacuity: on the 35-octet response of MessageRT.example_msg (question "a." A IN; one answer,
@@ -215,4 +444,46 @@ Proof.
                 ltac:(vm_compute; reflexivity) ltac:(repeat split) ltac:(vm_compute; reflexivity) ltac:(vm_compute; reflexivity)
                 (mkSR [(12, [x61])] 1 1 60 (A_A 16909060)) [] ltac:(vm_compute; reflexivity) ltac:(vm_compute; reflexivity)) as E.
   rewrite E. vm_compute. reflexivity.
+Qed.
+
+(* non-vacuity of the chain theorem: question "a." A IN; answers: a. CNAME b. (owner = pointer to the
+   question name; target written out), then b. A 5.6.7.8 TTL 30: the set comes back under "b." *)
+Definition example_chain_msg : list byte :=
+  [x12;x34;x81;x80;x00;x01;x00;x02;x00;x00;x00;x00;
+   x01;x61;x00; x00;x01; x00;x01;
+   xc0;x0c; x00;x05; x00;x01; x00;x00;x00;x3c; x00;x03; x01;x62;x00;
+   x01;x62;x00; x00;x01; x00;x01; x00;x00;x00;x1e; x00;x04; x05;x06;x07;x08].
+
+Lemma example_chain_end_to_end :
+  from_msg example_chain_msg T_A = Ok (mkRRset [x62; x2e] 1 30 [RD_A 84281096]).
+Proof.
+  set (q := mkSQ [(12, [x61])] 1 1).
+  set (r1 := mkSR [(12, [x61])] 5 1 60 (A_Name 5 [[x62]])).
+  set (r2 := mkSR [(34, [x62])] 1 1 30 (A_A 84281096)).
+  assert (Hn : forall p ls r, spec_name example_chain_msg p = SAccept ls r ->
+             Forall (fun l => label_ok (snd l) = true) ls -> wire_len (map snd ls) <= 255 -> name_stands example_chain_msg p ls r).
+  { intros p ls r E H1 H2. apply spec_name_accept_iff in E. destruct E as [E1 E2]. split; [exact E1|]. split; [exact E2|]. split; assumption. }
+  assert (Hq : questions_stand example_chain_msg 12 [q] 19).
+  { eapply qs_cons; [|constructor]. exists 15, (firstn 15 example_chain_msg), (skipn 19 example_chain_msg).
+    split; [apply Hn; [vm_compute; reflexivity|repeat constructor|vm_compute; discriminate]|]. repeat (split; [reflexivity|]). reflexivity. }
+  assert (S1 : record_stands example_chain_msg 19 r1 34).
+  { exists 21, (firstn 21 example_chain_msg), (skipn 34 example_chain_msg).
+    split; [apply Hn; [vm_compute; reflexivity|repeat constructor|vm_compute; discriminate]|]. repeat (split; [reflexivity|]). reflexivity. }
+  assert (S2 : record_stands example_chain_msg 34 r2 51).
+  { exists 37, (firstn 37 example_chain_msg), [].
+    split; [apply Hn; [vm_compute; reflexivity|repeat constructor|vm_compute; discriminate]|]. repeat (split; [reflexivity|]). reflexivity. }
+  assert (Hr : records_stand example_chain_msg 19 [r1; r2] 51).
+  { eapply rs_cons; [exact S1|]. eapply rs_cons; [exact S2|constructor]. }
+  pose proof (from_msg_follows_chain example_chain_msg q [r1; r2] 2 0 0 19 51 (mkHeader 4660 33152 1 2 0 0) T_A
+                ltac:(vm_compute; discriminate) ltac:(vm_compute; discriminate) Hq Hr eq_refl ltac:(lia) ltac:(lia) ltac:(lia)
+                ltac:(vm_compute; reflexivity) ltac:(repeat split) ltac:(vm_compute; reflexivity) ltac:(vm_compute; reflexivity)
+                [34; 51] 31 [x62; x2e] [None; Some (34, r2, 51, 1)] (Some (34, r2, 51, 1)) []) as E.
+  rewrite E; [vm_compute; reflexivity| | | |].
+  - cbn [rstands]. split; [exact S1|]. split; [exact S2|exact I].
+  - cbn [precs N.to_nat Pos.to_nat Pos.iter_op Nat.add].
+    apply (sc_hop q T_A 12 _ [] 19 r1 34 0 [Some (34, r2, 51, 0 + 1)] [[x62]] 31 [x62; x2e] [None; Some (34, r2, 51, 1)]);
+      [vm_compute; reflexivity|constructor|vm_compute; reflexivity|reflexivity|].
+    cbn [app]. change (34 - lenN (rdata_enc (sr_data r1))) with 31. change (join_labels [[x62]]) with [x62; x2e]. change (0 + 1) with 1. constructor.
+  - vm_compute. reflexivity.
+  - vm_compute. reflexivity.
 Qed.
